@@ -172,14 +172,15 @@ def parseUriEntry (s : String) : Option (String × Option UriParts) :=
   | [k, "!"] => (unhexStr k).map (·, none)
   | [k, v] =>
     match v.splitOn "/" with
-    | [sc, au, pa, qu, fr] => do
+    | [sc, au, pa, qu, fr, qun] => do
       let k ← unhexStr k
       let sc ← unhexStr sc
       let au ← parseOptStr au
       let pa ← unhexStr pa
       let qu ← parseOptStr qu
       let fr ← parseOptStr fr
-      pure (k, some { scheme := sc, authority := au, path := pa, query := qu, fragment := fr })
+      let qun ← parseOptStr qun
+      pure (k, some { scheme := sc, authority := au, path := pa, query := qu, fragment := fr, queryUnesc := qun })
     | _ => none
   | _ => none
 
